@@ -46,6 +46,16 @@ package jd
 //@ contract (jsonObject).Equals
 //@   loop "range o1" invariant forallKey(o1, o1, func(k string) bool { return !visited(k) || (mapHas(o2, k) && specEq(o1[k], o2[k], options)) })
 
+//@ contract (jsonObject).diff
+//@   loop "range o1" invariant forallInt(0, len(o1Keys), func(i int) bool { return mapHas(o1, o1Keys[i]) })
+//@   loop "range o1" invariant forallKey(o1, o1, func(k string) bool { return !visited(k) || existsInt(0, len(o1Keys), func(i int) bool { return o1Keys[i] == k }) })
+//@   loop "range o2" invariant forallInt(0, len(o2Keys), func(i int) bool { return mapHas(o2, o2Keys[i]) })
+//@   loop "range o2" invariant forallKey(o2, o2, func(k string) bool { return !visited(k) || existsInt(0, len(o2Keys), func(i int) bool { return o2Keys[i] == k }) })
+//@   loop "range o1Keys" invariant validDiff(d)
+//@   loop "range o1Keys" invariant (len(d) == 0) == forallInt(0, idx, func(i int) bool { return mapHas(o2, o1Keys[i]) && specEq(o1[o1Keys[i]], o2[o1Keys[i]], options) })
+//@   loop "range o2Keys" invariant validDiff(d)
+//@   loop "range o2Keys" invariant (len(d) == 0) == (forallInt(0, len(o1Keys), func(i int) bool { return mapHas(o2, o1Keys[i]) && specEq(o1[o1Keys[i]], o2[o1Keys[i]], options) }) && forallInt(0, idx, func(i int) bool { return mapHas(o1, o2Keys[i]) }))
+
 // Rendering helpers: json.Marshal / yaml.Marshal are assumed not to fail on the
 // plain values produced by raw() (maps with string keys, slices, float64, string, bool, nil).
 //@ contract renderJson
@@ -53,7 +63,11 @@ package jd
 //@ contract renderYaml
 //@   trusted
 //@ contract JsonNode.Json
+//@   requires validNode(self)
+//@   carries C13
 //@ contract JsonNode.Yaml
+//@   requires validNode(self)
+//@   carries C13
 
 // Set and multiset equality is decided by comparing combined hash codes; its agreement with
 // specEq rests on the hash function (see C04) and is checked on a bounded universe only.
@@ -85,3 +99,88 @@ package jd
 //@   loop "range d" invariant validNode(n)
 //@   loop "range d" invariant idx == 0 ==> same(n, old(n))
 //@   carries C03 C13 C01
+
+// ---------------------------------------------------------------------
+// Public entry points and the diff family: validity in, validity out (C13),
+// functional clauses are added per property below.
+
+//@ contract JsonNode.Patch
+//@   requires validNode(self) && validDiff(d)
+//@   ensures ret1 == nil ==> validNode(ret0)
+//@   ensures len(d) == 0 ==> ret1 == nil && same(ret0, old(self))
+//@   consumes self
+//@   carries C13 C03 C01
+
+//@ contract JsonNode.diff
+//@   requires validNode(self) && validNode(n) && validPath(p) && validStrategy(strategy)
+//@   ensures validDiff(ret0)
+//@   ensures (len(ret0) == 0) == specEq(self, n, options)
+//@   carries C13 C05 C07 C01
+
+//@ contract JsonNode.Diff
+//@   requires validNode(self) && validNode(n)
+//@   ensures validDiff(ret0)
+//@   ensures (len(ret0) == 0) == specEq(self, n, options)
+//@   carries C13 C05 C07 C01
+
+//@ contract JsonNode.hashCode
+//@   requires validNode(self)
+//@   carries C13 C04
+
+//@ contract JsonNode.raw
+//@   requires validNode(self)
+//@   carries C13
+
+//@ contract diff
+//@   requires validNode(a) && validNode(b) && validPath(p) && validStrategy(strategy)
+//@   ensures validDiff(ret0)
+//@   ensures (len(ret0) == 0) == specEq(a, b, options)
+//@   carries C13 C05 C07 C01
+
+//@ contract nodeList
+//@   requires validNodes(n)
+//@   ensures validNodes(ret0)
+//@   ensures len(n) == 0 || isVoid(n[0]) ==> len(ret0) == 0
+//@   ensures !(len(n) == 0 || isVoid(n[0])) ==> len(ret0) == len(n) && forallInt(0, len(n), func(i int) bool { return same(ret0[i], n[i]) })
+//@   carries C13 C07
+
+//@ contract getPatchStrategy
+//@   ensures validStrategy(ret0)
+//@   ensures (ret0 == mergePatchStrategy) == specHasMerge(options)
+//@   carries C13 C05
+
+//@ contract checkOption[mergeOption]
+//@   ensures ret0 == specHasMerge(options)
+//@   loop "range options" invariant specHasMerge(options) == specHasMerge(options[idx:])
+//@   carries C13 C05
+
+//@ contract (Path).clone
+//@   ensures len(ret0) == len(p)
+//@   ensures validPath(p) ==> validPath(ret0)
+//@   ensures forallInt(0, len(p), func(i int) bool { return ret0[i] == p[i] })
+//@   loop "range p" invariant forallInt(0, idx, func(i int) bool { return p2[i] == p[i] })
+//@   carries C13 C01 C07
+
+// Spec functions kept as uninterpreted symbols (unfolded on demand) to keep queries small.
+//@ contract validHunk
+//@   opaque
+//@ contract validNode
+//@   opaque
+//@   axiom
+//@ contract validNodes
+//@   opaque
+//@   axiom
+//@ contract validObject
+//@   opaque
+//@   axiom
+
+// ---------------------------------------------------------------------
+// Property-level stand-ins (bounded, never counted as proved).
+
+//@ contract verifDiff
+//@   bounded
+//@   requires validNode(a) && validNode(b) && verifDomain(a, b, options)
+//@   ensures_bounded verifPatchGives(a, ret0, b, options)
+//@   ensures_bounded (len(ret0) == 0) == a.Equals(b, options...)
+//@   ensures_bounded (len(ret0) == 0) == specEq(a, b, options)
+//@   carries C01 C05
